@@ -187,8 +187,9 @@ def check(case, ctx):
     if state[0] != "np":
         F = build.fmt(case["fmt"]) if case["fmt"] else None
         lb, fb = fp(lib), fp(F)
-        st1, w1 = sp.escape(lambda: bibtexparser.write_string(lib, bibtex_format=F))
-        st2, w2 = sp.escape(lambda: bibtexparser.write_string(lib, bibtex_format=F))
+        wkw = [{}, {"prepend_middleware": []}, {"prepend_middleware": ()}, {"prepend_middleware": None, "unparse_stack": None}][ctx.cases % 4]
+        st1, w1 = sp.escape(lambda: bibtexparser.write_string(lib, bibtex_format=F, **wkw))
+        st2, w2 = sp.escape(lambda: bibtexparser.write_string(lib, bibtex_format=F, **wkw))
         ctx.ran(2)
         ctx.mon("write_string_monitor")
         if st1 == "raise" or st2 == "raise":
